@@ -422,7 +422,7 @@ pub fn t5(prop: &str, seed: u64) -> RunDesc {
             t.ops = rounds(age);
         }
     }
-    d.cfg.step_cap = 4_000_000;
+    d.cfg.step_cap = 1_500_000;
     if let J::Obj(m) = &mut d.params {
         m.insert("template".into(), J::Str("T5 clock wrap + reader pinned across a cascade".into()));
         m.insert("link_age_rounds".into(), J::Int(age as i64));
@@ -479,7 +479,7 @@ pub fn t6(prop: &str, seed: u64) -> RunDesc {
         // the holder checks the interior node after the head is gone, then releases it
         d.threads.push(thread(2, "holder", vec![o(K::Await, 1, 0, 0, 0), o(K::Pin, 0, 0, 0, 0), o(K::Load, ROOT0, 0, 0, 0), o(K::DerefSnap, 0, 0, 0, 0), o(K::Load, snap_field(0, 0), 0, 1, 0), o(K::DerefSnap, 1, 0, 0, 0), o(K::Store, ROOT0, NONE_SLOT, 0, 0), o(K::Unpin, 0, 0, 0, 0)]));
     }
-    d.cfg.step_cap = 4_000_000;
+    d.cfg.step_cap = 1_500_000;
     d.params = J::obj().set("template", "T6 chain with held interior node").set("n", n).set("hold_at", hold_at.map(|x| x as i64).unwrap_or(-1)).set("tree", tree).set("link_age_rounds", age);
     d
 }
